@@ -135,14 +135,44 @@ def c14_3(ctx):
         out.append(ctx.ok("mnemonic:BIP39", "WordList('bip39_words.txt', 2048)", c, m, key="binding"))
     else:
         out.append(ctx.bad("mnemonic:BIP39", "word list binding is `%s`" % (ast.unparse(c) if c is not None else None), c, m, key="binding"))
-    # prefix lookup only for words longer than 4 characters, keyed by word[:4]
-    mod, fn = rl.get(ctx, "mnemonic:WordList.__init__")
-    src = ast.unparse(fn)
-    if "len(word) > 4" in src and "self.lookup[word[:4]] = i" in src and "self.lookup[word] = i" in src:
-        out.append(ctx.ok("mnemonic:WordList.__init__", "full word and 4-letter prefix map to the same index", fn, mod, key="prefix-lookup"))
-    else:
-        out.append(ctx.err("mnemonic:WordList.__init__", "prefix lookup idiom not recognised", fn, mod))
+    # full word and four-letter prefix both find the word's index
+    out.append(_prefix_lookup(ctx, words))
     return out
+
+
+def _prefix_lookup(ctx, words):
+    """WordList.__init__ evaluated on the repository's own word file (open() and os.path are stand-ins handing out that text): the
+    lookup table built must map every one of the 2048 words, and every four-letter prefix, to the word's index -- the complete domain"""
+    from sa.cells import Evaluator, FileStandIn, Namespace, Obj, Raised, Undecided
+    spec = "mnemonic:WordList.__init__"
+    mod, fn = rl.get(ctx, spec)
+    text = ctx.repo.data_files.get("bip39_words.txt")
+    ext = {"path": Namespace(join=lambda *a: "/".join(a), dirname=lambda p: p.rsplit("/", 1)[0]),
+           "open": lambda name, *a, **k: FileStandIn(ctx.repo.data_files[name.rsplit("/", 1)[-1]])}
+    me = Obj("mnemonic", "WordList")
+    try:
+        Evaluator(ctx.repo, externals=ext, max_steps=2000000).call(spec, ["bip39_words.txt", 2048], self_obj=me)
+    except (Undecided, KeyError) as u:
+        src = ast.unparse(fn)
+        if "len(word) > 4" in src and "self.lookup[word[:4]] = i" in src and "self.lookup[word] = i" in src:
+            return ctx.ok(spec, "full word and 4-letter prefix map to the same index", fn, mod, key="prefix-lookup")
+        return ctx.err(spec, "word list constructor not evaluable (%s) and prefix lookup idiom not recognised" % u, fn, mod)
+    except Raised as x:
+        return ctx.bad(spec, "WordList('bip39_words.txt', 2048) raises %s" % x.name, fn, mod, key="prefix-lookup")
+    lk, ws = me.attrs.get("lookup"), me.attrs.get("words")
+    if not isinstance(lk, dict) or ws != words:
+        return ctx.err(spec, "constructor does not build `lookup` / `words` as expected", fn, mod)
+    ctx.count("cells", len(words))
+    for i, w in enumerate(words):
+        if lk.get(w) != i:
+            return ctx.bad(spec, "word %r (index %d) is looked up as %r" % (w, i, lk.get(w)), fn, mod, key="prefix-lookup")
+        if lk.get(w[:4]) != i:
+            return ctx.bad(spec, "the four-letter prefix %r of word %r (index %d) is looked up as %r: abbreviated mnemonics decode to other entropy or fail" % (
+                w[:4], w, i, lk.get(w[:4])), fn, mod, key="prefix-lookup")
+    extra = sorted(k for k in lk if k not in set(words) and k not in {w[:4] for w in words})
+    if extra:
+        return ctx.bad(spec, "the lookup table accepts %d strings that are neither a word nor a four-letter prefix (e.g. %r)" % (len(extra), extra[0]), fn, mod, key="prefix-lookup")
+    return ctx.ok(spec, "full word and 4-letter prefix map to the same index (all %d words of the list evaluated)" % len(words), fn, mod, key="prefix-lookup")
 
 
 def c14_4(ctx):
